@@ -505,7 +505,7 @@ func (d *Downstream) assignUpstreamInfoAlias(info *message.UpstreamInfo) map[uin
 	defer d.mu.Unlock()
 
 	for _, v := range d.upstreamInfos {
-		if v == info {
+		if *v == *info {
 			// already assigned
 			return nil
 		}
